@@ -177,9 +177,14 @@ ISOLATION_PROJECTS = [
                "two_test.gdn": "fun helper2(n: Int): Int { n + 2 }\ntest other_passes { assert(helper2(1) == 3) }\ntest other_fails { assert(helper2(1) == 4) }\n"},
      "args": ["one_test.gdn", "two_test.gdn"]},
 ]
+ISOLATION_PROJECTS.append(
+    {"what": "a test file that imports the other file of the same run, which has a failing test of its own",
+     "files": {"app.gdn": "import \"./lib.gdn\" as lib\ntest app_uses_lib { assert(lib::triple(2) == 6) }\n",
+               "lib.gdn": "public fun triple(n: Int): Int { n * 3 }\ntest lib_triple_right { assert(triple(1) == 3) }\ntest lib_triple_wrong { assert(triple(1) == 4) }\n"},
+     "args": ["app.gdn", "lib.gdn"]})
 BOUNDED = [
     {"name": "test_isolation", "kind": "test-isolation", "props": ["C26"], "input": ISOLATION_PROJECTS, "n_inputs": len(ISOLATION_PROJECTS),
-     "bound": "%d listed projects of two test files (methods and types used across files, files without tests, failing / erroring / deeply failing tests): every test has the same verdict in the full run, with the files in reverse order and alone via -n; every run's exit status is non-zero exactly when a test failed; the summary counts every test" % len(ISOLATION_PROJECTS),
+     "bound": "%d listed projects of two test files (methods and types used across files, files without tests, a file that imports the other, failing / erroring / deeply failing tests): every test has the same verdict in the full run, with the files in reverse order and alone via -n; every run's exit status is non-zero exactly when a test failed; the summary counts every test" % len(ISOLATION_PROJECTS),
      "expect": {}},
 ]
 
